@@ -244,7 +244,7 @@ func sample(c *raftsim.Case, o *oracle) interface{} {
 
 func knownSet() map[string]bool {
 	m := map[string]bool{}
-	for _, id := range []string{raftsim.KnownSingleVoterWindow} {
+	for _, id := range raftsim.KnownIDs {
 		if known.Active(id) {
 			m[id] = true
 		}
